@@ -373,4 +373,107 @@ theorem yaml_int_unrepaired_witness :
     (handle concretePf false .json (.docs [d]) {}) = ⟨⟨[(1, dep1)], [⟨.create, 1, 0⟩]⟩, false, true, 0, false⟩ := by
   decide
 
+/-! ## histories: other writers between a Get and an Update (optimistic lock) -/
+
+/-- All-or-nothing holds in every history. -/
+theorem all_or_nothing_any_history (pf : PatchFn) (nz : Bool) (f : Form) (s : Stream) (st : St) (ws : Writers)
+    (h : s = .garbled ∨ ∃ ds, s = .docs ds ∧ ∃ d ∈ ds, d.valid = false) :
+    handleH pf nz f s st ws = ⟨st, true, false, 0, false⟩ := by
+  rcases h with rfl | ⟨ds, rfl, hd⟩
+  · simp [handleH, parse]
+  · have := parseLoop_some_invalid nz f ds [] hd
+    simp only [handleH, parse]
+    generalize parseLoop nz f ds [] = r at this
+    obtain ⟨ops, e⟩ := r
+    simp only at this
+    subst this
+    rfl
+
+/-- **C13 in every history (against all cluster states, other writers included).** Whatever the
+other clients of the API server do between a Get and an Update of this client (`ws`: any number of
+changes to any objects), the observable outcome of applying a patch file is `Spec.expectedH`: every
+operation once, in order, each with its documented effect ON THE OBJECT AS IT IS WHEN ITS WRITE
+SUCCEEDS; an operation that loses `retrySteps` times in a row fails and the later ones still run. -/
+theorem handle_meets_spec_any_history (pf : PatchFn) (f : Form) (ds : List Doc) (c : Cluster) (ws : Writers) :
+    let r := handleH pf true f (.docs ds) ⟨c, []⟩ ws
+    (r.failed, r.executed, r.st.cluster, r.st.log) = Spec.expectedH pf false ds c ws ∧ r.panicked = false := by
+  by_cases hv : ∃ d ∈ ds, d.valid = false
+  · have := all_or_nothing_any_history pf true f (.docs ds) ⟨c, []⟩ ws (Or.inr ⟨ds, rfl, hv⟩)
+    obtain ⟨d, hd, hdv⟩ := hv
+    have hany : ds.any (fun d => !d.valid) = true := by
+      simp only [List.any_eq_true]; exact ⟨d, hd, by simp [hdv]⟩
+    simp [this, Spec.expectedH, hany]
+  · have hall : ∀ d ∈ ds, d.valid = true := by
+      intro d hd
+      cases hdv : d.valid
+      · exact absurd ⟨d, hd, hdv⟩ hv
+      · rfl
+    have hany : ds.any (fun d => !d.valid) = false := by
+      simp only [List.any_eq_false]; intro d hd; simp [hall d hd]
+    have hops : ∀ op ∈ ds.map (opOf true f), op.intTyped = false := by
+      intro op hop
+      simp only [List.mem_map] at hop
+      obtain ⟨d, _, rfl⟩ := hop
+      have : repOf true f d.inline = .f64 := by cases f <;> simp [repOf]
+      simp [opOf, this, intTyped_withRep_f64]
+    have hmap : ds.map (opOf true f) = (ds.map (·.op)).map (Op.withRep .f64) := by
+      simp only [List.map_map]
+      apply List.map_congr_left
+      intro d _
+      have : repOf true f d.inline = .f64 := by cases f <;> simp [repOf]
+      simp [opOf, this]
+    simp only [handleH, parse_valid true f ds hall, executeH_refines pf _ ⟨c, []⟩ ws 0 hops,
+      Spec.expectedH, hany]
+    rw [hmap, runH_withRep]
+    simp
+
+/-- The history-aware Spec is a conservative extension: with no other writers it is `Spec.expected`. -/
+theorem expectedH_no_writers (pf : PatchFn) (g : Bool) (ds : List Doc) (c : Cluster) :
+    Spec.expectedH pf g ds c [] = Spec.expected pf g ds c := by
+  simp [Spec.expectedH, Spec.expected, runH_no_writers]
+
+/-- **No lost update (jq patch).** Somebody else changes the object (`w`) between the Get and the
+Update of a jq patch: the Update is refused, the filter is evaluated again on the changed object, and
+what ends up in the cluster is the filter applied to THE OTHER WRITER'S VERSION — never the filter's
+result on the stale copy. -/
+theorem jqpatch_no_lost_update (pf : PatchFn) (k : Key) (sub : Sub) (im ihe : Bool) (b w : Body)
+    (o o' o1' : Obj) (c : Cluster) (lg : List Action)
+    (hg : aget c k = some o) (hf : pf .jq b o = some o') (hne : objEqb o o' = false)
+    (hf1 : pf .jq b (landed w o) = some o1') (hne1 : objEqb (landed w o) o1' = false) :
+    execOneH pf (.patch .jq k true sub im ihe (some b)) ⟨c, lg⟩ [(k, w)] =
+      (⟨aset (aset c k (landed w o)) k o1',
+        lg ++ [⟨.get, k, 0⟩, ⟨.update, k, sub⟩, ⟨.get, k, 0⟩, ⟨.update, k, sub⟩]⟩, [], .ok) := by
+  have hrs : retrySteps = 2 + 1 + 1 := rfl
+  simp [execOneH, execFilterH, hrs, filterAttempts, apiGet, apiUpdateH, popWriter, St.call, hg, hf,
+    hne, hf1, hne1, aget_aset_same]
+
+/-- **No lost update (CreateOrUpdate).** The hook's object replaces whatever is there, also when
+somebody else got in first: one refused Update, one more Get … Update, no second Create. -/
+theorem createOrUpdate_conflict (pf : PatchFn) (k : Key) (o o0 : Obj) (w : Body) (c : Cluster) (lg : List Action)
+    (hg : aget c k = some o0) :
+    execOneH pf (.create false true (.good k true o .f64)) ⟨c, lg⟩ [(k, w)] =
+      (⟨aset (aset c k (landed w o0)) k o,
+        lg ++ [⟨.create, k, 0⟩, ⟨.get, k, 0⟩, ⟨.update, k, 0⟩, ⟨.get, k, 0⟩, ⟨.update, k, 0⟩]⟩, [], .ok) := by
+  have hrs : retrySteps = 2 + 1 + 1 := rfl
+  simp [execOneH, execCreateH, hrs, updateAttempts, apiCreate, apiGet, apiUpdateH, popWriter, St.call, hg,
+    aget_aset_same]
+
+/-- Non-vacuity of `jqpatch_no_lost_update` / of the history dimension: the other writer adds field 3
+while the jq patch sets field 2; both survive. The stale-result variant (filter evaluated once) would
+end with `[(2, s4), (1, s1)]`. -/
+example :
+    (handleH concretePf true .json
+      (.docs [⟨true, .patch .jq 1 true 0 false false (some [.set 2 (.s 4)]), false⟩])
+      ⟨[(1, [(1, .s 1)])], []⟩ [(1, [.set 3 (.s 7)])]).st.cluster = [(1, [(2, .s 4), (3, .s 7), (1, .s 1)])] := by
+  decide
+
+/-- The retry budget: four other writers in a row and the jq patch fails; their changes stay. -/
+example :
+    let r := handleH concretePf true .json
+      (.docs [⟨true, .patch .jq 1 true 0 false false (some [.set 2 (.s 4)]), false⟩])
+      ⟨[(1, [(1, .s 1)])], []⟩ [(1, [.set 1 (.s 2)]), (1, [.set 1 (.s 3)]), (1, [.set 1 (.s 4)]), (1, [.set 1 (.s 5)])]
+    r.failed = true ∧ r.nerr = 1 ∧ r.st.cluster = [(1, [(1, .s 5)])] ∧ r.st.log.length = 8 := by
+  decide
+
+
 end ShellOp.Patch.C13
